@@ -87,6 +87,9 @@ Self = TypeVar("Self", bound="AsyncBaseClientOpenTelemetry")
 
 GRAPHQL_TRANSPORT_WS = "graphql-transport-ws"
 
+# returned by the message handlers once the server has completed the operation
+_WS_COMPLETE: Dict[str, Any] = {}
+
 
 class GraphQLTransportWSMessageType(str, enum.Enum):
     CONNECTION_INIT = "connection_init"
@@ -398,6 +401,8 @@ class AsyncBaseClientOpenTelemetry:
 
             async for message in websocket:
                 data = await self._handle_ws_message(message, websocket)
+                if data is _WS_COMPLETE:
+                    break
                 if data:
                     yield data
 
@@ -457,6 +462,7 @@ class AsyncBaseClientOpenTelemetry:
 
         if type_ == GraphQLTransportWSMessageType.COMPLETE:
             await websocket.close()
+            return _WS_COMPLETE
         elif type_ == GraphQLTransportWSMessageType.PING:
             await websocket.send(
                 json.dumps({"type": GraphQLTransportWSMessageType.PONG.value})
@@ -606,6 +612,8 @@ class AsyncBaseClientOpenTelemetry:
                     data = await self._handle_ws_message_with_telemetry(
                         root_span=root_span, message=message, websocket=websocket
                     )
+                    if data is _WS_COMPLETE:
+                        break
                     if data:
                         yield data
 
@@ -696,6 +704,7 @@ class AsyncBaseClientOpenTelemetry:
 
             if type_ == GraphQLTransportWSMessageType.COMPLETE:
                 await websocket.close()
+                return _WS_COMPLETE
             elif type_ == GraphQLTransportWSMessageType.PING:
                 await websocket.send(
                     json.dumps({"type": GraphQLTransportWSMessageType.PONG.value})
